@@ -53,13 +53,13 @@ theorem flatMap_erase_count {α : Type} [BEq α] [LawfulBEq α] (f : α → List
       rw [ih hp]
       omega
 
-theorem Task.begin_spec (c : Cfg) (g : Group) (t : Task) (call : Call) (hg : GInv c g) (hpc : t.pc = .idle)
+theorem Task.begin_spec (c : Cfg) (hk : c.keys.Lawful) (g : Group) (t : Task) (call : Call) (hg : GInv c g) (hpc : t.pc = .idle)
     (hm : (t.begin c call).2 = false) : GoSpec c g t g (t.begin c call).1 := by
   have htoks : t.toks c = msgToks c t.outMsg ++ (destToks c t.outDest ++ []) := by
     unfold Task.toks; rw [hpc]; rfl
   cases call with
   | takeMsg a b =>
-    obtain ⟨h1, h2⟩ := chain_cur c (.takeMsg a b) _ (Chain.takeMsg c a b)
+    obtain ⟨h1, h2⟩ := chain_cur c (.takeMsg a b) _ (Chain.takeMsg c hk a b)
     refine ⟨hg, ?_, ?_⟩
     · simp only [Task.begin, TaskWF]; exact ⟨trivial, h1⟩
     · intro tok _
@@ -228,7 +228,7 @@ theorem refillG_spec (c : Cfg) (g : Group) (i : Nat) (l : LimSt) (h : GInv c g) 
 
 /-! ### every event -/
 
-theorem step_inv (c : Cfg) (s : St) (e : Ev) (h : Inv c s) (hm : (step c s e).misuse = false) :
+theorem step_inv (c : Cfg) (hk : c.keys.Lawful) (s : St) (e : Ev) (h : Inv c s) (hm : (step c s e).misuse = false) :
     Inv c (step c s e) := by
   cases e with
   | spawn =>
@@ -254,7 +254,7 @@ theorem step_inv (c : Cfg) (s : St) (e : Ev) (h : Inv c s) (hm : (step c s e).mi
           cases hb : (t.begin c call).2 with
           | false => rfl
           | true => simp [hb] at hm
-        have := Inv.set_task c s i t _ s.g h hi (Task.begin_spec c s.g t call h.g hpc hm')
+        have := Inv.set_task c s i t _ s.g h hi (Task.begin_spec c hk s.g t call h.g hpc hm')
         refine ⟨this.g, this.w, this.t⟩
       | panicked => simpa [hpc] using h
       | taking a b => simpa [hpc] using h
